@@ -514,6 +514,8 @@ M("pdf-minmax-before-division", ["C12"], KSUB,
   "            if pdf[i] < self.min_density:\n                self.min_density = pdf[i]\n            if pdf[i] > self.max_density:\n                self.max_density = pdf[i]\n\n            pdf[i] /= n_pdf\n")
 M("arcs-maxdist-empty", ["C07", "C12"], KSUB, "        max_distances = np.zeros(k)\n", "        max_distances = np.empty(k)\n")
 M("arcs-scratch-empty", ["~C07", "~C12"], KSUB, "        distances = np.zeros(k + 1)\n", "        distances = np.empty(k + 1)\n")
+M("arcs-drop-zero-length", ["C12"], KSUB, "                if distances[l] != c.FLOAT_MAX:\n", "                if 0 < distances[l] < c.FLOAT_MAX:\n")
+M("arcs-valid-lt", ["~C12"], KSUB, "                if distances[l] != c.FLOAT_MAX:\n", "                if distances[l] < c.FLOAT_MAX:\n")
 M("pdf-max-sentinel-zero", ["C12"], KSUB, "        self.max_density = -c.FLOAT_MAX", "        self.max_density = 0.0")
 M("pdf-neighbour-of-neighbour", ["C12", "C10"], KSUB,
   "                    distance = distance_function(\n                        self.nodes[i].features, self.nodes[j].features\n                    )",
